@@ -7,7 +7,7 @@ export MUTANT_WT=/tmp/wt-mx
 for d in seeded/*/; do
   name=$(basename "$d"); prop=${name%%-*}
   if grep -q obsolete_after_fix "$d/meta.json" 2>/dev/null; then echo "$name obsolete (see meta.json)" | tee -a .build/seeded-logs/matrix.txt; continue; fi
-  prop=${prop%b}
+  prop=$(echo "$prop" | grep -oE '^C[0-9]+')
   # meta.json may name the checks that are expected to see the change (default: the property's own)
   checks=$(python3 -c "import json,sys; print(' '.join(json.load(open('$d/meta.json')).get('checks', ['$prop'])))" 2>/dev/null || echo "$prop")
   tools/run_mutant.sh "$name" $checks "$@" 2>&1 | tee -a .build/seeded-logs/matrix.txt
